@@ -16,7 +16,10 @@ use crate::config::DEFAULT_SKIP_DOCUMENT_CODE;
 use crate::escaping::Escaper;
 use crate::formatln;
 use crate::lossy_string;
+use crate::newline::BytesNewline;
 use crate::newline::SplitLinesByNewline;
+use crate::parsers::line_parser::extract_exit_code;
+use crate::rules::rule::ends_in_modifier;
 
 /// Product of a single execution that captures output and status
 #[derive(Clone, PartialEq, Eq)]
@@ -197,11 +200,14 @@ impl OutputStream {
         let ends_in_newline = !bytes.is_empty() && bytes[bytes.len() - 1] == b'\n';
         for (idx, line) in lines.iter().enumerate() {
             let expectation = escaper.escaped_expectation(line);
-            let suffix = if !ends_in_newline
-                && !expectation.ends_with(" (escaped)")
-                && idx + 1 == lines.len()
-            {
+            let suffix = if escaper.has_unprintable(line.trim_newlines()) {
+                // rendered as escaped expectation, which disregards the newline
+                ""
+            } else if !ends_in_newline && idx + 1 == lines.len() {
                 " (no-eol)"
+            } else if ends_in_modifier(&expectation) || extract_exit_code(&expectation).is_some() {
+                // the kind must be named, or the line is taken for something else
+                " (equal)"
             } else {
                 ""
             };
